@@ -5,7 +5,7 @@ patch="$1"; prop="$2"; tier="${3:-quick}"; wt=/tmp/wt/mut_$$
 git -C /repo worktree add -q --detach $wt HEAD || exit 2
 cd $wt || exit 2
 if ! git apply --3way "$patch" 2>/dev/null && ! git apply "$patch"; then echo "PATCH DOES NOT APPLY: $patch"; cd /; git -C /repo worktree remove --force $wt; exit 3; fi
-cd /verif && VERIF_REPO=$wt ./check "$prop" --tier "$tier" > /tmp/try_seed_$$.out 2>&1
+cd /verif && VERIF_EVIDENCE_DIR=/verif/out/seedrun/try_$$ VERIF_REPLAY_DIR=/verif/out/seedrun/try_$$/replays VERIF_REPO=$wt ./check "$prop" --tier "$tier" > /tmp/try_seed_$$.out 2>&1
 code=$?
 git -C /repo worktree remove --force $wt
 grep -E "^VIOLATION|^KNOWN|clause=|MACHINERY" /tmp/try_seed_$$.out | head -6
